@@ -37,6 +37,8 @@ RULES = {
     "C05-c": "STATELESS: elements that declare _can_break_flow have a per-value run; pre-processing vocabulary is fill-capable",
     "C05-d": "AGREE: run and fill_into of Filter/Count/Slice treat a value the same way",
     "C05-f": "FillComputeSeq/FillRequestSeq = FillSeq up to the first accumulator + Sequence of the rest, in order",
+    "C05-g": "STOP SIGNAL: LenaStopFill raised by a filled element is kept only by the driver (Split.run); every other function that "
+             "fills another element inside a try re-raises it",
 }
 AD = "lena.core.adapters"
 ADAPTERS = [
@@ -514,7 +516,7 @@ def check_wrappers(ctx):
         ctx.unknown("C05-b", fn, "FillInto.fill_into: unrecognised body")
     fn = ctx.tree.func(AD, "FillInto._run_fill_into")
     ps = [p for p in A.func_params(fn) if p != "self"]
-    loops = [l for l in A.body_wo_doc(fn) if isinstance(l, ast.For)]
+    loops = [l for l in A.walk_local(fn) if isinstance(l, ast.For) and A.enclosing(l, (ast.For, ast.While)) is None]
     # the results of run([value]) taken one at a time with next(): only a prefix of them can reach the element
     from ..lazy import FlowAnalyser
     runs = [c for c in A.walk_local(fn) if isinstance(c, ast.Call) and A.src(c.func) == "self._el.run"]
@@ -535,7 +537,10 @@ def check_wrappers(ctx):
                       "results when filled than when run" % A.short(pulled_once[0], 40), construct="run-fill-into-first-only")
     elif ctx.require(len(loops) == 1 and len(ps) == 2, "C05-b", fn, "FillInto._run_fill_into: expected one loop over the results"):
         l = loops[0]
-        ok = A.src(l.iter) == "self._el.run([%s])" % ps[1]
+        it = l.iter
+        if isinstance(it, ast.Name) and A.single_def(fn, it.id) is not None:      # an explaining variable
+            it = A.single_def(fn, it.id)
+        ok = A.src(it) == "self._el.run([%s])" % ps[1]
         ctx.check("C05-b", ok, l, "FillInto._run_fill_into iterates `%s`, not the run of a flow consisting of this one value" % A.short(l.iter, 50),
                   detail="_run_fill_into: for result in self._el.run([value])", construct="run-fill-into-iter")
         for q in P.loop_body_paths(l):
@@ -950,7 +955,24 @@ def check_seqs(ctx):
                       construct="seq-result:%s:%s" % (qual, pkey(fn, p)), path=p)
 
 
+def check_stop_signal(ctx):
+    """C05-g.  Driven by fill, a chain ends when an element raises LenaStopFill; the signal must reach the driver."""
+    hits = K.swallowed_stop_fill(ctx.tree, ctx.res, allowed=(("lena.core.split", "Split.run"),))
+    for mod, fn, tr, h, c in hits:
+        ctx.violation("C05-g", tr, "%s fills another element (`%s`) inside a try whose handler `except %s` does not re-raise: LenaStopFill "
+                      "-- the stop signal of the fill protocol -- raised by the filled element ends there, the driver (Split.run) never "
+                      "learns that the branch has finished and goes on filling it, which the same chain driven by run would not do" % (
+                          A.qualname(fn), A.short(c, 40), A.src(h.type) if h.type is not None else ""),
+                      construct="swallowed-stop-fill:%s" % A.qualname(fn))
+    fillers = [(m, f) for m, f in ctx.tree.functions() if any(
+        isinstance(c, ast.Call) and isinstance(c.func, ast.Attribute) and c.func.attr in ("fill", "fill_into") for c in A.walk_local(f))]
+    ctx.instances_floor("C05-g", len(fillers), 15, "functions that fill another element")
+    if not hits:
+        ctx.ok("C05-g", ("lena", "<tree>"), "%d functions fill another element: none but Split.run keeps LenaStopFill" % len(fillers))
+
+
 def check(ctx):
+    check_stop_signal(ctx)
     check_adapters(ctx)
     check_wrappers(ctx)
     check_can_break_flow(ctx)
@@ -960,6 +982,8 @@ def check(ctx):
 
 ADP = "lena/core/adapters.py"
 VARIANTS = [
+    M("runfillinto-keeps-stop", "lena/core/adapters.py", "        for result in self._el.run([value]):\n            element.fill(result)", "        try:\n            for result in self._el.run([value]):\n                element.fill(result)\n        except exceptions.LenaStopFill:\n            pass", ["C05-g"]),
+    M("fill-keeps-exception", "lena/core/fill_seq.py", "        self._fill_into_el.fill_into(self._fill_el, value)", "        try:\n            self._fill_into_el.fill_into(self._fill_el, value)\n        except exceptions.LenaException:\n            return", ["C05-g"]),
     M("runfillinto-next-only", "lena/core/adapters.py", "        for result in self._el.run([value]):\n            element.fill(result)", "        results = iter(self._el.run([value]))\n        try:\n            result = next(results)\n        except StopIteration:\n            return\n        element.fill(result)", ["C05-b"]),
     M("fc-seq-compute-skips-empty-after", "lena/core/fill_compute_seq.py", "        results = self._after.run(flow)\n", "        if self._after:\n            results = self._after.run(flow)\n        else:\n            results = flow\n", ["C05-f"]),
     M("call-run-returns-map", "lena/core/adapters.py", "        for val in flow:\n            yield self._el(val)\n", "        return map(self._el, flow)\n", ["C05-b"]),
